@@ -138,7 +138,8 @@ class GenericWorld:
             p = np.where(p > 0, p, 0)
             p = p / p.sum() if p.sum() > 0 else np.full(p.shape, 1.0 / p.shape[0])
             k = int(np.prod(s)) if s else 1
-            r = rng.choice(p.shape[0], size=k, replace=name.endswith("_repl"), p=p)
+            repl = name.endswith("_repl") or int((p > 0).sum()) < k   # an infeasible request (more draws than support) falls back to replacement
+            r = rng.choice(p.shape[0], size=k, replace=repl, p=p)
             return [np.asarray(r, dtype=np.int32).reshape(s)]
         return None
 
